@@ -405,3 +405,5 @@ func (c *Ctx) infoFor(f *ssa.Function) *types.Info {
 	}
 	return p.TypesInfo
 }
+
+func typesPtr(t *ssa.Type) types.Type { return types.NewPointer(t.Type()) }
